@@ -37,7 +37,7 @@ def cursor_update(res, fl):
     return None, None, None
 
 
-@rule("C01-B2", "C01", 6, "bump: the handed-out extent is exactly what the cursor moved over: memory_offset = old cursor, memory_offset + memory_size = new cursor", also=("C04",))
+@rule("C01-B2", "C01", 6, "bump: the handed-out extent is exactly what the cursor moved over: memory_offset = old cursor, memory_offset + memory_size = new cursor", also=(("C02", "sync"), "C04"))
 def b2(ctx):
     for fl in FLAVOURS:
         for name in ("alloc_bytes_in", "alloc_aligned_bytes_in", "alloc_in"):
@@ -93,7 +93,7 @@ def r1(ctx):
 
 
 @rule("C01-R3", "C01", 2, "try_new_segment(offset, size): the segment lies inside the released extent - offset <= ptr_offset = alignUp(8, offset), data_offset = ptr_offset + 8, "
-      "data_offset + data_size = offset + size, data_size >= min_segment_size (C20: a release too small to become a segment is never linked)", also=("C10", "C20"))
+      "data_offset + data_size = offset + size, data_size >= min_segment_size (C20: a release too small to become a segment is never linked)", also=(("C02", "sync"), "C10", "C20"))
 def r3(ctx):
     OFF, SIZE = ("param", 1, "offset"), ("param", 2, "size")
     for fl in FLAVOURS:
